@@ -224,7 +224,8 @@ fn install_transport() {
                 let t2 = target.clone();
                 let p2 = payload.clone();
                 let cfg2 = src_cfg.clone();
-                actix_rt::spawn(async move {
+                // (the sender may be a plain tokio task, e.g. the raft core: no LocalSet there)
+                tokio::spawn(async move {
                     tokio::time::sleep(Duration::from_micros(lat2 * 3 + 1000)).await;
                     if tokio::fs::current_epoch(&node_name(t2.id)) == t2.epoch {
                         let _ = deliver(&t2, p2, &cfg2).await;
